@@ -1,0 +1,53 @@
+//go:build verif
+
+// Contracts for package fsim (module github.com/fido-device-onboard/go-fdo/fsim),
+// checked by /verif/govc (see /verif/DESIGN.md). Comment-only file.
+package fsim
+
+// ---- download (device receives a file): a file appears under its final name only
+// when the announced length was received exactly and the digest (if announced)
+// matches; on every exit of finalize the temp file is cleaned up (C17) ----------------------
+
+//@ func fsim.Download.finalize
+//@   props C17 C10(sweep)
+//@   sweep bounds,panic,make
+//@   requires @complete d.written >= d.length
+//@   requires @hash d.hash != nil
+//@   callsites rename 1
+//@   callassert rename#1: @length d.written == d.length
+//@   callassert rename#1: @digest len(d.sha384) > 0 ==> bytes(d.sha384) == digest(absorbed(d.hash))
+//@   callassert rename#1: @name len(d.name) > 0
+//@   ensures @cleanup wasreset(d) == True()
+
+//@ func fsim.Download.reset
+//@   nopaths
+//@   modifies d.temp
+//@   ghostset wasreset(d) := True()
+
+//@ func fsim.Download.receive
+//@   props C17 C10(sweep)
+//@   sweep bounds,panic,make
+//@   requires @hash d.hash != nil
+//@   invariant loop#1: d.hash != nil
+//@   callassert finalize#1: @complete d.written >= d.length
+
+//@ func fsim.Download.createTemp
+//@   nopaths
+//@   modifies d.temp
+
+// ---- upload (owner receives a file) ----------------------------------------------------------------
+//@ func fsim.UploadRequest.finalize
+//@   props C17 C10(sweep)
+//@   sweep bounds,panic,make
+//@   requires @hash u.hash != nil && u.temp != nil
+//@   callsites Rename 1
+//@   callassert Rename#1: @length u.written <= u.length
+//@   callassert Rename#1: @digest bytes(u.sha384) == digest(absorbed(u.hash))
+
+// ---- wget (device fetches a URL) -----------------------------------------------------------------
+//@ func fsim.Wget.download
+//@   props C17 C10(sweep)
+//@   sweep bounds,panic,make
+//@   callsites rename 1
+//@   callassert rename#1: @digest len(d.sha384) > 0 ==> bytes(d.sha384) == bytes(hashed)
+//@   callassert rename#1: @name len(d.name) > 0
